@@ -123,23 +123,35 @@ package wal
 
 //@ property C03
 // ---- Save: what reaches the disk before Save returns ----
-// ghost(flushes, w): number of completed buffer flushes to the file; ghost(fsyncs, w): completed fdatasyncs
+// ghost(flushes, nil): number of completed buffer flushes to the file; ghost(fsyncs, nil): completed fdatasyncs
 
+// the two system-level sinks: a completed bufio flush to the segment file, a completed fdatasync
+//@ func (e *encoder) flush() error
+//@   trusted bufio.Writer.Flush
+//@   ensures result == nil ==> ghost(flushes, nil) == old(ghost(flushes, nil)) + 1
+//@   ensures result != nil ==> ghost(flushes, nil) >= old(ghost(flushes, nil))
+//@   modifies ghost(flushes, nil)
+//@ extern github.com/youzan/ZanRedisDB/pkg/fileutil.Fdatasync func(f *os.File) error
+//@   ensures result == nil ==> ghost(fsyncs, nil) == old(ghost(fsyncs, nil)) + 1
+//@   ensures result != nil ==> ghost(fsyncs, nil) >= old(ghost(fsyncs, nil))
+//@   modifies ghost(fsyncs, nil)
+//@ noeffect (github.com/prometheus/client_golang/prometheus.Observer).Observe (github.com/prometheus/client_golang/prometheus.Histogram).Observe (time.Duration).Seconds
 //@ func (w *WAL) sync(fsync bool) error
-//@   trusted bufio flush + fdatasync system call
-//@   ensures result == nil ==> ghost(flushes, w) == old(ghost(flushes, w)) + 1
-//@   ensures result == nil && fsync ==> ghost(fsyncs, w) == old(ghost(fsyncs, w)) + 1
-//@   ensures !fsync || result != nil ==> ghost(fsyncs, w) >= old(ghost(fsyncs, w))
-//@   ensures result != nil ==> ghost(flushes, w) >= old(ghost(flushes, w))
-//@   modifies ghost(flushes, w), ghost(fsyncs, w)
+//@   requires w != nil && (fsync ==> len(w.locks) >= 1 && w.locks[len(w.locks)-1] != nil)
+//@   ensures result == nil && w.encoder != nil ==> ghost(flushes, nil) == old(ghost(flushes, nil)) + 1
+//@   ensures result == nil && fsync ==> ghost(fsyncs, nil) == old(ghost(fsyncs, nil)) + 1
+//@   ensures !fsync || result != nil ==> ghost(fsyncs, nil) >= old(ghost(fsyncs, nil))
+//@   ensures result != nil ==> ghost(flushes, nil) >= old(ghost(flushes, nil))
+//@   modifies ghost(flushes, nil), ghost(fsyncs, nil)
 
 //@ func (w *WAL) cut() error
 //@   trusted segment rotation (file-system calls); syncs the old and the new segment with sync(!w.optimizedFsync)
-//@   ensures result == nil ==> ghost(flushes, w) > old(ghost(flushes, w))
-//@   ensures result == nil && !w.optimizedFsync ==> ghost(fsyncs, w) > old(ghost(fsyncs, w))
-//@   ensures ghost(fsyncs, w) >= old(ghost(fsyncs, w)) && ghost(flushes, w) >= old(ghost(flushes, w))
+//@   ensures result == nil ==> ghost(flushes, nil) > old(ghost(flushes, nil))
+//@   ensures result == nil && !w.optimizedFsync ==> ghost(fsyncs, nil) > old(ghost(fsyncs, nil))
+//@   ensures ghost(fsyncs, nil) >= old(ghost(fsyncs, nil)) && ghost(flushes, nil) >= old(ghost(flushes, nil))
 //@   ensures w.optimizedFsync == old(w.optimizedFsync)
-//@   modifies ghost(flushes, w), ghost(fsyncs, w), w.locks, w.encoder
+//@   ensures result == nil ==> w.encoder != nil && len(w.locks) >= 1 && w.locks[len(w.locks)-1] != nil
+//@   modifies ghost(flushes, nil), ghost(fsyncs, nil), w.locks, w.encoder
 
 //@ func (w *WAL) saveEntry(e *raftpb.Entry) error
 //@   trusted protobuf marshalling and buffered write of one record
@@ -158,11 +170,11 @@ package wal
 // Raft's "persist before answering" set: new entries, a changed vote or a changed term are flushed before
 // Save returns; a changed vote/term is additionally fsynced, in the optimized-fsync mode too.
 //@ func (w *WAL) Save(st raftpb.HardState, ents []raftpb.Entry) error
-//@   requires w != nil && len(w.locks) >= 1 && w.locks[len(w.locks)-1] != nil
-//@   ensures result == nil && (len(ents) != 0 || (!(st.Term == 0 && st.Vote == 0 && st.Commit == 0) && (st.Vote != old(w.state.Vote) || st.Term != old(w.state.Term)))) ==> ghost(flushes, w) > old(ghost(flushes, w))
-//@   ensures result == nil && !(st.Term == 0 && st.Vote == 0 && st.Commit == 0) && (st.Vote != old(w.state.Vote) || st.Term != old(w.state.Term)) ==> ghost(fsyncs, w) > old(ghost(fsyncs, w))
-//@   ensures result == nil && !w.optimizedFsync && (len(ents) != 0 || !(st.Term == 0 && st.Vote == 0 && st.Commit == 0)) && (len(ents) != 0 || st.Vote != old(w.state.Vote) || st.Term != old(w.state.Term)) ==> ghost(fsyncs, w) > old(ghost(fsyncs, w))
+//@   requires w != nil && w.encoder != nil && len(w.locks) >= 1 && w.locks[len(w.locks)-1] != nil
+//@   ensures result == nil && (len(ents) != 0 || (!(st.Term == 0 && st.Vote == 0 && st.Commit == 0) && (st.Vote != old(w.state.Vote) || st.Term != old(w.state.Term)))) ==> ghost(flushes, nil) > old(ghost(flushes, nil))
+//@   ensures result == nil && !(st.Term == 0 && st.Vote == 0 && st.Commit == 0) && (st.Vote != old(w.state.Vote) || st.Term != old(w.state.Term)) ==> ghost(fsyncs, nil) > old(ghost(fsyncs, nil))
+//@   ensures result == nil && !w.optimizedFsync && (len(ents) != 0 || !(st.Term == 0 && st.Vote == 0 && st.Commit == 0)) && (len(ents) != 0 || st.Vote != old(w.state.Vote) || st.Term != old(w.state.Term)) ==> ghost(fsyncs, nil) > old(ghost(fsyncs, nil))
 //@   modifies *
 //@ loop 1
-//@   invariant w.state.Term == old(w.state.Term) && w.state.Vote == old(w.state.Vote) && w.optimizedFsync == old(w.optimizedFsync) && sameSlice(w.locks, old(w.locks)) && ghost(flushes, w) == old(ghost(flushes, w)) && ghost(fsyncs, w) == old(ghost(fsyncs, w))
+//@   invariant w.state.Term == old(w.state.Term) && w.state.Vote == old(w.state.Vote) && w.optimizedFsync == old(w.optimizedFsync) && sameSlice(w.locks, old(w.locks)) && ghost(flushes, nil) == old(ghost(flushes, nil)) && ghost(fsyncs, nil) == old(ghost(fsyncs, nil))
 //@   invariant w.locks[len(w.locks)-1] == old(w.locks[len(w.locks)-1])
